@@ -76,57 +76,109 @@ def main(argv=None):
     case_wall = 0.0
 
     ctx = mp.get_context('spawn')
-    ex = cf.ProcessPoolExecutor(max_workers=nworkers, mp_context=ctx, initializer=core.setup_worker_process)
-    pending = set()
+    from concurrent.futures.process import BrokenProcessPool
+    pending = {}          # future -> case
     submitted = 0
     hard_deadline = t0 + budget * 4 + 600
-    try:
-        def refill():
-            nonlocal submitted, exhausted
-            while len(pending) < nworkers * 3 and not exhausted:
-                if time.time() - t0 > budget and submitted > 0:
-                    return
-                if args.max_cases is not None and submitted >= args.max_cases:
-                    return
-                try:
-                    case = next(case_iter)
-                except StopIteration:
-                    exhausted = True
-                    return
-                pending.add(ex.submit(core._run_case_in_worker, (modname, case)))
-                submitted += 1
 
-        refill()
-        while pending:
-            done, _ = cf.wait(pending, timeout=30, return_when=cf.FIRST_COMPLETED)
-            if not done:
-                if time.time() > hard_deadline:
-                    inconclusive.append('watchdog: cases did not finish before the hard deadline')
-                    break
-                continue
-            for fut in done:
-                pending.discard(fut)
-                try:
-                    d = fut.result()
-                except Exception as e:  # broken pool etc.
-                    inconclusive.append(f'worker failure: {type(e).__name__}: {e}')
-                    continue
-                evaluations += 1
-                case_wall += d['wall']
-                counters.update(d['counters'])
-                nontrivial.update(d['nontrivial'])
-                merge_extra(extra, d.get('extra') or {})
-                if d['sample'] is not None and len(samples) < 5:
-                    samples.append(d['sample'])
-                for r in d['inconclusive']:
-                    if len(inconclusive) < 20:
-                        inconclusive.append(r)
-                for v in d['violations']:
-                    v['case'] = d['case']
-                    violations.append(v)
+    def absorb(d):
+        nonlocal evaluations, case_wall
+        evaluations += 1
+        case_wall += d['wall']
+        counters.update(d['counters'])
+        nontrivial.update(d['nontrivial'])
+        merge_extra(extra, d.get('extra') or {})
+        if d['sample'] is not None and len(samples) < 5:
+            samples.append(d['sample'])
+        for r in d['inconclusive']:
+            if len(inconclusive) < 20:
+                inconclusive.append(r)
+        for v in d['violations']:
+            v['case'] = d['case']
+            violations.append(v)
+
+    def isolate(case):
+        """run one case alone in a fresh worker process (twice if it dies): which case kills its interpreter?"""
+        deaths = 0
+        for _ in range(2):
+            ex1 = cf.ProcessPoolExecutor(max_workers=1, mp_context=ctx, initializer=core.setup_worker_process)
+            try:
+                return 'ok', ex1.submit(core._run_case_in_worker, (modname, case)).result(timeout=budget * 4 + 600)
+            except BrokenProcessPool:
+                deaths += 1
+            except Exception as e:  # noqa
+                return 'error', f'{type(e).__name__}: {e}'
+            finally:
+                ex1.shutdown(wait=False, cancel_futures=True)
+        return 'died', deaths
+
+    rounds = 0
+    while True:
+        rounds += 1
+        ex = cf.ProcessPoolExecutor(max_workers=nworkers, mp_context=ctx, initializer=core.setup_worker_process)
+        suspects = []
+        try:
+            def refill():
+                nonlocal submitted, exhausted
+                while len(pending) < nworkers * 3 and not exhausted:
+                    if time.time() - t0 > budget and submitted > 0:
+                        return
+                    if args.max_cases is not None and submitted >= args.max_cases:
+                        return
+                    try:
+                        case = next(case_iter)
+                    except StopIteration:
+                        exhausted = True
+                        return
+                    pending[ex.submit(core._run_case_in_worker, (modname, case))] = case
+                    submitted += 1
+
             refill()
-    finally:
-        ex.shutdown(wait=False, cancel_futures=True)
+            broken = False
+            while pending and not broken:
+                done, _ = cf.wait(list(pending), timeout=30, return_when=cf.FIRST_COMPLETED)
+                if not done:
+                    if time.time() > hard_deadline:
+                        inconclusive.append('watchdog: cases did not finish before the hard deadline')
+                        pending.clear()
+                        break
+                    continue
+                for fut in done:
+                    case = pending.pop(fut)
+                    try:
+                        absorb(fut.result())
+                    except BrokenProcessPool:
+                        broken = True
+                        suspects.append(case)
+                    except Exception as e:  # noqa
+                        inconclusive.append(f'worker failure: {type(e).__name__}: {e}')
+                if not broken:
+                    try:
+                        refill()
+                    except BrokenProcessPool:
+                        broken = True
+        finally:
+            ex.shutdown(wait=False, cancel_futures=True)
+        if not broken:
+            break
+        # a worker process died: every unfinished case is a suspect; run each alone to find the one(s) that kill the interpreter
+        suspects += list(pending.values())
+        pending.clear()
+        with cf.ThreadPoolExecutor(max_workers=nworkers) as tp:
+            for case, (status, d) in zip(suspects, tp.map(isolate, suspects)):
+                if status == 'ok':
+                    absorb(d)
+                elif status == 'died':
+                    counters['cases_that_killed_their_process'] += 1
+                    violations.append({'what': 'the worker process running this case died abruptly (twice, alone in a fresh process): the code under test '
+                                               'crashed the interpreter (fatal signal) instead of returning or raising', 'mech': None,
+                                       'facts': {'tag': 'process_died'}, 'witness': None, 'case': case})
+                else:
+                    inconclusive.append(f'worker failure in isolation: {d}')
+        if rounds >= 4 or exhausted and not pending:
+            if rounds >= 4:
+                inconclusive.append('worker processes kept dying: gave up after 4 pool restarts')
+            break
 
     # ---- verdict -------------------------------------------------------------------------------
     known_seen = Counter()
